@@ -418,7 +418,15 @@ def r3_fpga(program, folder, rep):
         raise AnalysisError("spinn5_fpga_link: the look-up in "
                             "SPINN5_FPGA_LINKS was not found")
     want_keys = [("tuple", ("comp", cc, 0), ("comp", cc, 1), P_(ps[2]))
-                 for cc in (CC, CCK)]
+                 for cc in (CC, CCK)] + [
+        # (the pair returned, with the link appended)
+        ("binop", "Add", cc, ("tuple", P_(ps[2]))) for cc in (CC, CCK)]
+    if not any(st_[0] == "call" and st_[1] == ("global",
+                                                "spinn5_chip_coord")
+               for k in keys for st_ in subterms(k)):
+        raise AnalysisError("spinn5_fpga_link: the on-board coordinate is "
+                            "not obtained from spinn5_chip_coord; that form "
+                            "is not analysed")
     ok = all(k in want_keys for k in keys) and all(
         r_ == ("const", None) or any(
             st_[0] in ("get", "item") and st_[1] == TABLE
@@ -496,6 +504,20 @@ def r4_dimensions(program, rep):
                             pass
             return False
         okb = bool(paths) and all(factor_fact(f) for _, f in paths)
+        pht = plain(HT)
+        if not okb and pht[0] == "call" and pht[1] in (
+                ("global", "max"), ("global", "min")) and \
+                len(pht[2]) == 1 and pht[2][0][0] in (
+                    "genexp", "listcomp", "setcomp") and \
+                len(pht[2][0][2]) == 1:
+            # the largest (smallest) of the candidates that pass the factor
+            # test: an element of a filtered comprehension passes its filter
+            comp_ = pht[2][0]
+            it_, conds_ = comp_[2][0]
+            if comp_[1] == ("elem", it_):
+                from ..terms import split_cond as _split
+                fs = [x for c_ in conds_ for x in _split(c_, True)]
+                okb = factor_fact(fs, HT=comp_[1])
         if not okb:
             # a for loop left by break: every break is under the factor test
             brk = [n for n in T.cfg.nodes if isinstance(n.ast, ast.Break)]
